@@ -89,7 +89,8 @@ ResOK ==
       [] OTHER -> TRUE
 
 Why ==
-    IF ~Pre THEN "Harness:precondition:" \o Ev.op
+    IF Ev.out = "NoReturn" THEN "NoReturn:" \o Ev.op
+    ELSE IF ~Pre THEN "Harness:precondition:" \o Ev.op
     ELSE IF Ev.out \notin Outs THEN
          IF st = "closed" /\ Ev.op \in HandleOps THEN "ClosedRaisesValueError:" \o Ev.op
          ELSE IF Ev.op = "set" /\ Ev.v = NB THEN "NonBytesRefused"
